@@ -265,6 +265,7 @@ func (c *cursor) skipSpace() bool {
 var defPatterns = map[string]*regexp.Regexp{
 	"cssB":    regexp.MustCompile(`^\.(boxed_[0-9a-f]{8})\{color:red;--brandColor:blue;\}$`),
 	"cssT":    regexp.MustCompile(`^\.(tinted_[0-9a-f]{8})\{--accentColor:green;\}$`),
+	"scriptS": regexp.MustCompile(`^function (__templ_span2_[0-9a-f]{4})\(lo, hi\)\{show\(lo, hi\);\s*\}$`),
 	"scriptG": regexp.MustCompile(`^function (__templ_greet_[0-9a-f]{4})\(a\)\{alert\(a\);\s*\}$`),
 }
 
@@ -385,10 +386,20 @@ func match(toks []templang.Tok, items []item) (ok bool, why string) {
 						want = c.bound["cssB"]
 					case "CSST":
 						want = c.bound["cssT"]
+					case "CMIX":
+						want = "card " + c.bound["cssB"] + " wide"
+						if c.bound["cssB"] == "" {
+							want = ""
+						}
+					case "SCR2":
+						want = c.bound["scriptS"] + "(1,2)"
+						if c.bound["scriptS"] == "" {
+							want = ""
+						}
 					case "SCRG":
 						want = c.bound["scriptG"] + `("x")`
 					}
-					if ra.Key != strings.ToLower(a.N) || ra.Val != want || want == "" && (a.V == "CSSB" || a.V == "CSST" || a.V == "SCRG") {
+					if ra.Key != strings.ToLower(a.N) || ra.Val != want || want == "" && (a.V == "CSSB" || a.V == "CSST" || a.V == "SCRG" || a.V == "CMIX" || a.V == "SCR2") {
 						return false, fmt.Sprintf("%s: attribute %d is %s=%q, expected %s=%q", where, ai+1, ra.Key, ra.Val, strings.ToLower(a.N), want)
 					}
 				}
